@@ -628,7 +628,7 @@ def _run_msg(case, res, log):
     if info["fired"]:
         res.faults.inc("stream_" + info["fired"])
     outcome = "exc:" + type(exc).__name__ if exc else "ok"
-    log.add(style, case["k"], len(versions), len(msgs), info["fired"], info["pos_class"], outcome, verdict[0], hash(after) & 0xFFFFFF)
+    log.add(style, case["k"], len(versions), len(msgs), info["fired"], info["pos_class"], outcome, verdict[0], Z.stable_hash(after))
     res.nontrivial = info["fired"] is not None or (len(msgs) >= 2 and len(versions) - 1 - case["k"] >= 2)
     res.state(style, info["fired"], info["pos_class"], outcome, verdict[0])
     res.steps = len(msgs)
